@@ -118,17 +118,48 @@ def build_special(g, kind, flag, special):
 
 
 def born_probs(kind, true, testers):
-    """outcome distributions from the Born rule on the coefficient vectors (independent of matA/vecB)"""
+    """outcome distributions from the Born rule on the coefficient vectors (independent of matA/vecB), one per schedule;
+    `testers["pairs"]` (optional) lists the testers actually assigned to each schedule of a custom schedule list"""
+    pairs = testers.get("pairs")
     if kind == "qst":
-        return [np.array([v @ true.vec for v in p.vecs]) for p in testers["povms"]]
+        sel = testers["povms"] if pairs is None else [testers["povms"][j] for j in pairs]
+        return [np.array([v @ true.vec for v in p.vecs]) for p in sel]
     if kind == "povmt":
-        return [np.array([v @ s.vec for v in true.vecs]) for s in testers["states"]]
+        sel = testers["states"] if pairs is None else [testers["states"][i] for i in pairs]
+        return [np.array([v @ s.vec for v in true.vecs]) for s in sel]
+    if pairs is None:
+        pairs = [(i, j) for i in range(len(testers["states"])) for j in range(len(testers["povms"]))]
     if kind == "qpt":
-        return [np.array([v @ (true.hs @ s.vec) for v in p.vecs])
-                for s in testers["states"] for p in testers["povms"]]
+        return [np.array([v @ (true.hs @ testers["states"][i].vec) for v in testers["povms"][j].vecs]) for i, j in pairs]
     if kind == "qmpt":
-        return [np.array([v @ (hs @ s.vec) for hs in true.hss for v in p.vecs])
-                for s in testers["states"] for p in testers["povms"]]
+        return [np.array([v @ (hs @ testers["states"][i].vec) for hs in true.hss for v in testers["povms"][j].vecs])
+                for i, j in pairs]
+
+
+def with_schedules(g, kind, flag, testers, mo, full=False):
+    """the same testers in an explicit, PERMUTED (qst: permuted subset) schedule list; returns (qt, testers + pairs)"""
+    if kind == "qst":
+        n = len(testers["povms"])
+        pairs = [int(x) for x in g.permutation(n)][:n if full else max(3, n - 1)]
+        if pairs == sorted(pairs):
+            pairs = pairs[1:] + pairs[:1]
+        qt = StandardQst(testers["povms"], on_para_eq_constraint=flag, schedules=[[("state", 0), ("povm", j)] for j in pairs])
+    elif kind == "povmt":
+        n = len(testers["states"])
+        pairs = [int(x) for x in g.permutation(n)]
+        if pairs == sorted(pairs):
+            pairs = pairs[1:] + pairs[:1]
+        qt = StandardPovmt(testers["states"], mo, on_para_eq_constraint=flag, schedules=[[("state", i), ("povm", 0)] for i in pairs])
+    else:
+        allp = [(i, j) for i in range(len(testers["states"])) for j in range(len(testers["povms"]))]
+        pairs = [allp[int(x)] for x in g.permutation(len(allp))]
+        if kind == "qpt":
+            qt = StandardQpt(testers["states"], testers["povms"], on_para_eq_constraint=flag,
+                             schedules=[[("state", i), ("gate", 0), ("povm", j)] for i, j in pairs])
+        else:
+            qt = StandardQmpt(testers["states"], testers["povms"], num_outcomes=mo, on_para_eq_constraint=flag,
+                              schedules=[[("state", i), ("mprocess", 0), ("povm", j)] for i, j in pairs])
+    return qt, {**testers, "pairs": pairs}
 
 
 def compositions(n, m):
@@ -485,7 +516,14 @@ def check_qt(ctx, kind, flag, m, mo, boundary, salt, nmax, joint=False, counts=N
     rep = {"kind": "qt", "tomo": kind, "flag": flag, "m": m, "mo": mo, "boundary": boundary, "salt": salt,
            "nmax": nmax, "joint": joint, "counts": counts, "special": special}
     tag = f"{kind}-{'on_para' if flag else 'free'}"
-    if special:
+    if special and special.startswith("perm"):
+        # explicit permuted schedule list: quantities must follow the tester ASSIGNED to each schedule
+        full = special.endswith(":1")
+        qt, true, testers = build(g, kind, flag, m=m, mo=mo, boundary=boundary,
+                                  counts=([m] * 3 if full else [m] * 4) if kind == "qst" else None)
+        qt, testers = with_schedules(g, kind, flag, testers, mo, full=full)
+        rep["pairs"] = testers["pairs"]
+    elif special:
         qt, true, testers = build_special(g, kind, flag, special)
     else:
         qt, true, testers = build(g, kind, flag, m=m, mo=mo, boundary=boundary, counts=counts)
@@ -495,6 +533,8 @@ def check_qt(ctx, kind, flag, m, mo, boundary, salt, nmax, joint=False, counts=N
         ns = [2 + ((j * 2 + salt) % max(2, nmax - 1)) for j in range(S)]
         if len(set(ns)) < min(S, 3):
             ns = [2 + j % max(2, nmax - 1) for j in range(S)]
+        if special.startswith("perm"):
+            ns = [int(x) for x in (1 + g.permutation(max(S, nmax)))[:S]] if S <= 4 else [1 + (j * 5 + salt) % nmax for j in range(S)]
     p_ref = born_probs(kind, true, testers)
     rep["ns"] = ns
     ctx.case(("oracle-qt", kind, flag, m, mo, boundary, salt, special), sample={"op": "oracle", **{k: rep[k] for k in ("tomo", "flag", "m", "mo", "ns")}})
@@ -672,10 +712,22 @@ def check_helpers(ctx, salt, n):
         if not close(mu.calc_se(xsl[0], ysl[0]), ses[0], 1e-12) or not close(mse, mean, 1e-12) or not close(std, sd, 1e-10):
             _viol(ctx, "C19/calc_mse_prob_dists", f"(mse,std)=({mse},{std}) vs mean {mean}, sample std(ddof=1) {sd}", rep)
         y = g.standard_normal(m)
-        xs = [g.standard_normal(m) for _ in range(R)]
+        xs = [g.standard_normal(m) for _ in range(R)] + [y.copy(), y.copy()]      # samples that hit the true value exactly
+        R = len(xs)
         refn = sum(float(np.linalg.norm(x - y)) ** 2 for x in xs) / R
         if not close(da.calc_mse_general_norm(xs, y, lambda a, b_: np.linalg.norm(a - b_)), refn, 1e-12):
             _viol(ctx, "C19/calc_mse_general_norm", "mean of squared norms", rep)
+        # complete enumeration of all 2^N equally likely outcome sequences at p = (1/2, 1/2): the mean squared error of the
+        # empirical distribution equals the analytical trace; for even N the outcome f = p (error exactly 0) occurs
+        for N in (2, 3, 4):
+            ph = np.array([0.5, 0.5])
+            fs = [np.array([k, N - k], dtype=float) / N for k in (sum(bits) for bits in itertools.product((0, 1), repeat=N))]
+            got = da.calc_mse_general_norm(fs, ph, lambda a, b_: np.linalg.norm(a - b_))
+            want = float(np.trace(mu.calc_covariance_mat(ph, N)))
+            if not close(got, want, 1e-12):
+                _viol(ctx, "C19/calc_mse_general_norm/enumeration", f"N={N}, p=(1/2,1/2): mean squared error over all {2 ** N} outcome sequences "
+                      f"{got} vs analytical trace {want}", rep)
+                break
         # Fisher matrix helpers
         nv = int(g.integers(1, 5))
         pp = rand_prob(g, m)
@@ -783,6 +835,15 @@ def oracle(ctx, volume=1):
                 salt += 1
                 ctx.count(f"oracle deterministic schedule {kind} k={k}")
                 check_qt(ctx, kind, flag, 2, 2, True, salt, nmax, special=f"det:{k}")
+    # explicit permuted (qst: permuted subset) schedule lists with pairwise different sample sizes, all four tomographies
+    for kind in KINDS:
+        for flag in (True, False) if (not quick or kind in ("qst", "povmt")) else (True,):
+            salt += 1
+            ctx.count(f"oracle custom schedule list {kind}")
+            check_qt(ctx, kind, flag, 2, 2, False, salt, nmax, special="perm:0")
+            if kind == "qst":       # all testers, permuted order
+                salt += 1
+                check_qt(ctx, kind, flag, 2, 2, False, salt, nmax, special="perm:1")
     # several DIFFERENT experiments with matA of equal shape and equal norm, back to back in this process
     for flag in (True, False):
         for i in range(len(AXES_SETS)):
